@@ -153,9 +153,11 @@ static void e2e_case(Out &o, Gen &G, int method, int q, int n_target, int style,
       range = std::ceil(hi - o0) + 1.f + (float)G.r.below(4) * 0.5f;
     }
   }
+  g_enc_builtin_compression = !G.r.chance(20); g_enc_position_prediction = G.r.chance(15) ? (int)PREDICTION_NONE : -1;   // raw value bytes / no prediction
   Decoded d = encode_decode(g, method, speed, q, explicit_range ? origin.data() : nullptr, range);
   std::string id = std::string(method_name(method)) + " speed=" + S(speed) + " q=" + S(q) + " nc=" + S(nc) + " n=" + S(g.n()) +
-                   (explicit_range ? " explicit" : " auto");
+                   (explicit_range ? " explicit" : " auto") + (g_enc_builtin_compression ? "" : " raw-values") + (g_enc_position_prediction == -1 ? "" : " no-prediction");
+  g_enc_builtin_compression = true; g_enc_position_prediction = -1;
   if (!d.ok) {
     // Edgebreaker refuses a mesh whose triangles are all degenerate by position value: not a quantization matter
     if (method == M_MESH_EB && d.err.find("degenerate") != std::string::npos) { o.note("skipped (all triangles degenerate): " + id); return; }
